@@ -155,6 +155,17 @@ def check_C04(ctx):
                     version = None
         invs.append((root, path, per_level, cmds, {}))
         cases.append({"op": "run", "env": {}, "version": version, "root": root, "argv": argv})
+        # a long-lived application object: some of the root's sub-commands are declared only after a first run (on the
+        # empty line), then the invocation proper is run on the same object
+        # (the first run must not print the root's help, which would run the initialisers of the sub-commands declared
+        # so far -- Q10 --: the root has an Action and is given, for that run, a spec that accepts the empty line)
+        if root["subs"] and root.get("action") and rng.random() < 0.3:
+            for sc_ in root["subs"]:
+                if rng.random() < 0.6:
+                    sc_["late"] = True
+            o_ = [d for d in root["decls"] if d["t"] == "opt"]
+            a_ = [d for d in root["decls"] if d["t"] == "arg"]
+            cases[-1]["before"] = {"spec": (("[OPTIONS] " if o_ else "") + " ".join("[%s]" % x["name"] for x in a_)).strip(), "argv": []}
     res = correspond(ctx, cases, ["outcome", "trace", "values", "sbu"], "trees x paths x per-level command lines")
     verdicts = level_verdicts(ctx, invs)
     # standalone runs of every level, to compare the bindings level by level
